@@ -16,7 +16,7 @@ def mapRanges : List String := [
 def mapRangeClasses : List String := [
   "gtfs.ParseRealtime: tripsById: collect-then-sort",
   "gtfs.ParseRealtime: vehiclesByID: collect-then-sort",
-  "gtfs.ParseStatic: serviceIdToService: unclassified: result.Services is filled in map order and not sorted afterwards",
+  "gtfs.ParseStatic: serviceIdToService: collect-then-sort",
   "gtfs.parseAlert: informedRoutesFromTripIDs: collect-then-sort",
   "gtfs.parseScheduledStopTimes: idToTrip: independent",
   "gtfs.parseShapes: shapeIDToRowData: collect-then-sort",
@@ -24,8 +24,7 @@ def mapRangeClasses : List String := [
   "journal.BuildJournal: trips: collect-then-sort"]
 
 /-- range-over-map sites whose order-insensitivity the extractor could not establish structurally -/
-def mapRangesUnclassified : List String := [
-  "gtfs.ParseStatic: serviceIdToService: unclassified: result.Services is filled in map order and not sorted afterwards"]
+def mapRangesUnclassified : List String := []
 
 /-- every `for` without a condition -/
 def unboundedLoops : List String := [
@@ -66,6 +65,8 @@ def panicSites : List String := [
   "gtfs.ParseRealtime: index result.Vehicles[j]  [guard: sort-comparator]",
   "gtfs.ParseRealtime: index shouldSkip[i]  [unguarded: gtfs: index []bool]",
   "gtfs.ParseStatic: index result.Agencies[0]  [guard: len-checked]",
+  "gtfs.ParseStatic: index result.Services[i]  [guard: sort-comparator]",
+  "gtfs.ParseStatic: index result.Services[j]  [guard: sort-comparator]",
   "gtfs.ParseStatic: index result.Shapes[idx]  [guard: range-index]",
   "gtfs.ParseStatic: index result.Trips[idx]  [guard: range-index]",
   "gtfs.StopTimeUpdate.GetArrival: deref *stopTimeUpdate.Arrival  [guard: nil-checked]",
